@@ -1,13 +1,22 @@
-"""C18 native oracle: see replay/instr.py."""
+"""C18 native oracle: see replay/instr.py (same chart in every configuration), plus live output whose callback uses
+the chart's public API (the live flags must not change what the chart does, nor make a step fail)."""
 from replay.common import main
 from replay import instr
 
 
 def scenarios(seed, tier, failed):
-    return instr.scenarios(seed, tier, failed, live=('C18' == 'C21'))
+    for k, sc in enumerate(instr.scenarios(seed, tier, failed, live=False)):
+        yield sc
+        if k % 7 == 3:
+            yield dict(sc, plain_decorator=True)
+        if k % 10 == 0 and sc['host'] == 'HsmWithQueues' and sc.get('spy'):
+            yield dict(sc, kind='live-callback', live_spy=True, live_trace=True, callback_scribbles=True)
 
 
 def run(sc):
+    if sc.get('kind') == 'live-callback':
+        r = instr.run_c21(sc)
+        return (r[0], r[1], 'live-spy') if not r[0] else (True, '')
     return instr.run_c18(sc)
 
 
